@@ -930,6 +930,7 @@ pub struct VerifLinkCcDump {
     pub backoff_entry_loss_pm: u32,
     pub loss_uncongestive: bool,
     pub uncongestive_ticks: u32,
+    pub seeded: bool,
 }
 
 #[cfg(feature = "verif-hooks")]
@@ -956,6 +957,7 @@ impl LinkCongestionState {
             backoff_entry_loss_pm: self.backoff_entry_loss_pm,
             loss_uncongestive: self.loss_uncongestive,
             uncongestive_ticks: self.uncongestive_ticks,
+            seeded: self.seeded,
         }
     }
 }
